@@ -248,7 +248,12 @@ class RSPT:
     """Rayleigh-Schroedinger PT with intermediate normalisation:
     (H0 - E0)|n> = -H1|n-1> + sum_{m>=1} E(m)|n-m>, E(n) = <Phi0|H1|n-1>."""
 
-    def __init__(self, ham, order, nelec=None):
+    def __init__(self, ham, order, nelec=None, first_order_singles=None):
+        """first_order_singles: optional array s[a, i] over all N orbitals; the
+        singly excited determinants get these coefficients in |1> (MP: they vanish
+        for a HF reference; the library's first_order_singles=True keeps them as
+        free first-order parameters that enter all higher orders through the
+        recursion)."""
         self.ham, self.order = ham, order
         fs = self.fs = ham.fs
         p = fs.p
@@ -300,6 +305,14 @@ class RSPT:
                     for d, xi in zip(ds, x):
                         if xi:
                             new[d] = xi
+            if k == 1 and first_order_singles is not None:
+                for a in fs.virt:
+                    for i in fs.occ:
+                        st = fs.apply_ops([('c', a), ('a', i)], {ref: 1})
+                        (det, sg), = st.items()
+                        c = int(first_order_singles[a, i]) * sg % p
+                        if c:
+                            new[det] = (new.get(det, 0) + c) % p
             self.psi.append(new)
 
     def amplitude(self, n, k):
